@@ -1,4 +1,4 @@
-CONSTANTS Ns = {1,2,3,4,5,6,7,8,9,10,11,12,13,14,15,16,17,18,19,20,21,22,23,24}  Threads = {1,2,3,4,5,6,7,8,9,10,11,12,13,14,15,16}  MinPers = {1,2,3,4}
+CONSTANTS Ns = {1,2,3,4,5,6,7,8,9,10,11,12,13,14,15,16,17,18,19,20,21,22,23,24}  Threads = {1,2,3,4,5,6,7,8,9,10,11,12,13,14,15,16}  MinPers = {1,2,3,4}  Deeps = {0, 250}
 INIT Init
 NEXT Next
 VIEW View
